@@ -21,7 +21,9 @@ EXPR_CASES = [
     ("assign ys = b + -2'd3;",      dict(b=0b111), dict(ys=4), "-2'd3 unsigned: ctx unsigned 8 bits: 7 + (256-3) = 260 -> 4"),
     ("assign ys = b + -2'sd3;",     dict(b=0b111), dict(ys=0), "2'sd3 = 11b = -1, negated +1; b=-1: 0"),
     ("assign ys = b + 3'sd5;",      dict(b=0b111), dict(ys=0b11111100), "3'sd5 = 101b = -3 ; -1 + -3 = -4"),
-    ("assign y1 = b < -2'd3;",      dict(b=0b111), dict(y1=1), "unsigned compare at 3 bits: 7 < (8-3)=5 ? no... see note"),
+    ("assign y1 = b < -2'd3;",      dict(b=0b111), dict(y1=0), "unsigned 3-bit compare: 2'd3 -> 011, negated 101 = 5; 7 < 5 false"),
+    ("assign y1 = b < -2'd3;",      dict(b=0b100), dict(y1=1), "unsigned: 4 < 5 true"),
+    ("assign y1 = b > -2'd3;",      dict(b=0b001), dict(y1=0), "unsigned: 1 > 5 false (a signed reading 1 > -3 would be TRUE)"),
     ("assign y1 = b < 3'sd5;",      dict(b=0b100), dict(y1=1), "signed compare: -4 < -3"),
     ("assign y1 = b < 3'd5;",       dict(b=0b100), dict(y1=1), "unsigned compare: 4 < 5"),
     ("assign y1 = b < 3'd5;",       dict(b=0b111), dict(y1=0), "unsigned compare: 7 < 5 false (b would be -1 if signed)"),
@@ -75,11 +77,6 @@ EXPR_CASES = [
     ("assign y = a & b;",           dict(a=0b111, b=0b100), dict(y=0b100), "mixed unsigned: b zero-extended"),
     ("assign y = $signed({1'd0, a}) | b;", dict(a=0b001, b=0b100), dict(y=0b11111101), "signed: b sign-extended"),
 ]
-# fix the one case whose comment left the arithmetic open: 3-bit unsigned context, -2'd3: 2'd3 -> 011, negated 101 = 5; 7<5 = 0
-EXPR_CASES[8] = ("assign y1 = b < -2'd3;", dict(b=0b111), dict(y1=0), "unsigned 3-bit compare: 7 < 5 is false (Migen: -1 < -3 false too)")
-EXPR_CASES.append(("assign y1 = b < -2'd3;", dict(b=0b100), dict(y1=1), "unsigned: 4 < 5 true (signed reading -4 < -3 true)"))
-EXPR_CASES.append(("assign y1 = b > -2'd3;", dict(b=0b001), dict(y1=0), "unsigned: 1 > 5 false (signed reading 1 > -3 TRUE: differs)"))
-
 STMT_CASES = [
     # procedural: NBAs in a comb block are applied at the end, later wins, part-select updates only its bits
     ("reg [7:0] r; always @(*) begin r <= 8'd0; r[1:0] <= a; end assign y = r;", dict(a=0b111), dict(y=3), "slice NBA over default"),
